@@ -371,6 +371,51 @@ class C16:
                     rep.check("C16.P4", "silent-delete|" + stmt_key(f, n), ctx.line(f, n), not silent, "deletes with its event",
                               "`%s` deletes an object of the mock tree without a delete event: an event-mirroring consumer keeps a phantom live id" % ast.unparse(n), func=f.qname)
 
+    def p9_p10(self):
+        rep, ctx = self.rep, self.ctx
+        rep.rule("C16.P9", "FileSystemProvider.rename refuses an occupied destination: with something at the destination it raises CloudFileExistsError unless a folder "
+                 "replaces an EMPTY folder - the guard is `destination is no folder, or the kinds differ, or the destination folder has contents`", expect_min=1)
+        from sa import predform
+        f = self.fs.methods["rename"]
+        defs = {}
+        for n in ctx.own_nodes(f):
+            if isinstance(n, ast.Assign) and isinstance(n.targets[0], ast.Name):
+                defs.setdefault(n.targets[0].id, []).append(n.value)
+        dst = [k for k, v in defs.items() if len(v) == 1 and pat.match("self.join(self.namespace_id, $P)", v[0]) is not None]
+        src = [k for k, v in defs.items() if len(v) == 1 and pat.match("self._oid_to_fpath($O)", v[0]) is not None]
+        if len(dst) != 1 or len(src) != 1:
+            raise AnalysisError("FileSystemProvider.rename: source / destination paths not identified")
+        to_dir = [k for k, v in defs.items() if len(v) == 1 and pat.match("os.path.isdir(%s)" % dst[0], v[0]) is not None]
+        from_dir = [k for k, v in defs.items() if len(v) == 1 and pat.match("os.path.isdir(%s)" % src[0], v[0]) is not None]
+        has = [k for k, v in defs.items() if any(isinstance(x, ast.Call) and pat.match("self._folder_path_has_contents(%s)" % dst[0], x) is not None for x in v)]
+        if not (to_dir and from_dir and has):
+            raise AnalysisError("FileSystemProvider.rename: to_dir / from_dir / has_contents locals not identified")
+        ex_if = [n for n in ctx.own_nodes(f) if isinstance(n, ast.If) and pat.match("os.path.exists(%s)" % dst[0], n.test) is not None]
+        good, detail = False, "no `if os.path.exists(<destination>)` block"
+        for blk in ex_if:
+            for n in ast.walk(blk):
+                if isinstance(n, ast.If) and n is not blk and any(isinstance(x, ast.Raise) and "CloudFileExistsError" in ast.unparse(x) for x in ast.walk(n)) \
+                        and any(isinstance(x, ast.Name) and x.id in (to_dir[0], has[0]) for x in ast.walk(n.test)):
+                    try:
+                        got = predform.dnf(n.test)
+                        want = predform.dnf(predform.parse("not {t} or {t} != {f} or {h}".format(t=to_dir[0], f=from_dir[0], h=has[0])))
+                    except predform.Undecided as e:
+                        detail = "undecided: %s" % e
+                        continue
+                    good = got == want
+                    detail = predform.show(got)
+        rep.check("C16.P9", "FileSystemProvider.rename|occupied-destination", f, good, "raises unless folder-over-empty-folder",
+                  "the occupied-destination guard of FileSystemProvider.rename is now [%s]: e.g. a file renamed onto an existing file silently replaces it (no CloudFileExistsError, "
+                  "the destination's bytes are gone) - the mock refuses that" % detail)
+        rep.rule("C16.P10", "a mock event is a snapshot of the object at the time of the change: MockEvent stores a copy of the object, not the live object (two changes of one "
+                 "object between polls are reported with their own id / existence)", expect_min=1)
+        me = ctx.prog.cls("MockEvent").methods["__init__"]
+        st = [n for n in ctx.own_nodes(me) if isinstance(n, ast.Assign) and isinstance(n.targets[0], ast.Attribute) and isinstance(n.value, (ast.Call, ast.Name, ast.Attribute))
+              and any(isinstance(x, ast.Name) and x.id in me.params()[1:] and "object" in x.id for x in ast.walk(n.value))]
+        okc = bool(st) and all(isinstance(n.value, ast.Call) and ("copy" in ast.unparse(n.value.func)) for n in st)
+        rep.check("C16.P10", "MockEvent|snapshot", me, okc, "the event keeps copy(object)",
+                  "MockEvent keeps a live reference to the object: every queued event of an object reports its LATEST id, path and existence when the feed is polled")
+
     def p3b(self):
         rep, ctx = self.rep, self.ctx
         rep.rule("C16.P3b", "the hash cache of the filesystem provider stamps an entry with the modification time read BEFORE the content was hashed: no os.stat is "
@@ -485,6 +530,7 @@ def run(ctx: Ctx, rep: Report, tier: str):
     c.p3()
     c.p4()
     c.p3b()
+    c.p9_p10()
     c.p5_p6()
     c.p7()
     c.p8()
